@@ -298,12 +298,14 @@ func parseIptables(line string, t []tok) (*rule, error) {
 			if err != nil {
 				return nil, err
 			}
-			set, ok := listMatcher(a, ctStates)
+			// ctStateList (vocab_ctstate_nat.go) additionally accepts xt_conntrack's virtual states DNAT / SNAT;
+			// for a list without them it is exactly listMatcher(a, ctStates) and virt is empty.
+			set, virt, ok := ctStateList(a)
 			if !ok {
 				return nil, vocab(a, "unknown conntrack state")
 			}
 			n := takeNeg()
-			add(func(p *Packet, _, _ uint32) bool { return set[ctState(p)] != n })
+			add(func(p *Packet, _, _ uint32) bool { return (set[ctState(p)] || natStateHas(p, virt)) != n })
 		case "--ctstatus":
 			if err := need(s, "conntrack"); err != nil {
 				return nil, err
